@@ -265,8 +265,8 @@ def run_glob(tier, funcs, index, enums, res):
             res["unsupported"][k] = res["unsupported"].get(k, 0) + c
         r["bound"] = "patterns of %d characters" % n
         res["runs"].append(r)
-    res["bounds"] = ("every pattern of 1..%d characters over %r against every subject of 0..3 characters over %r; patterns with '[.', '[=', '[:' (collating symbols, "
-                     "classes) and '^' are excluded; onig's validation of a bracket expression is modelled as well-formedness" % (
+    res["bounds"] = ("every pattern of 1..%d characters over %r against every subject of 0..3 characters over %r; ranges included; patterns with '[.', '[=', '[:' (collating symbols, "
+                     "classes), with a range whose start sorts after its end (undefined) and '^' are excluded; onig's validation of a bracket expression is modelled as well-formedness" % (
                          4 if tier == "quick" else 5, "".join(map(chr, c12_glob.PAT_ALPHA)), "".join(map(chr, c12_glob.SUBJ_ALPHA))))
 
 
